@@ -439,3 +439,23 @@ Proof.
   split; [split; [repeat constructor; cbn; intuition discriminate | intros g [H|[]]; subst; cbn; tauto]|].
   split; [exact I|]. split; [discriminate|]. split; [reflexivity|]. split; reflexivity.
 Qed.
+
+(* MaxFieldChars = 0 (excluded by the premise max_field_chars E <> 0): a field value is truncated to the empty
+   text, the modifier reports a change and emits contact_field_changed, and nothing is stored *)
+Definition with_max (E : menv) (n : N) : menv :=
+  {| max_field_chars := n; urn_normalize := urn_normalize E; urn_valid := urn_valid E;
+     urn_identity := urn_identity E; urn_scheme := urn_scheme E; urn_set_channel := urn_set_channel E;
+     tel_scheme := tel_scheme E; chan_can_send := chan_can_send E; chan_supports := chan_supports E;
+     field_types := field_types E; parse_num := parse_num E; parse_dt := parse_dt E; parse_loc := parse_loc E;
+     all_groups := all_groups E; uses_query := uses_query E; matches := matches E |}.
+
+Theorem zero_limit_refuted :
+  exists E fresh m c c' evs,
+    wf_contact E c /\ mod_wf E m /\ max_field_chars E = 0
+    /\ apply E fresh m c = (c', evs, true) /\ same_contact c c'.
+Proof.
+  exists (with_max ex_env 0), 7, (MField 0 [50]), (ex_contact [106] [0]). eexists. eexists.
+  split; [split; [repeat constructor; cbn; intuition discriminate | intros g [H|[]]; subst; cbn; tauto]|].
+  split; [exact I|]. split; [reflexivity|]. split; [reflexivity|].
+  unfold same_contact. cbn. repeat split; reflexivity.
+Qed.
